@@ -77,6 +77,12 @@ Definition discover (decls : list decl) : list str := discover_from decls (candi
 (* ------------------------------------------------------------------ *)
 (* Configuration                                                       *)
 
+(* one entry of exclude-subpkg-regex: an expression, optionally starting with the inline flag (?i).
+   Every entry is compiled and matched on its own (regexp.MatchString per entry): a flag set in
+   one entry never reaches another entry. *)
+Record xentry := { x_fold : bool; x_pat : pattern }.
+Definition entry_match (e : xentry) (s : str) : bool := pat_match_fold (x_fold e) (x_pat e) s.
+
 Inductive re_src := ReUnset (* "" *) | ReBad | ReOk (p : pattern).
 
 (* config.Config, restricted to what decides selection; every field is a pointer (None = nil)
@@ -87,7 +93,7 @@ Record cfg := {
   c_inc : option re_src;
   c_exc : option re_src;
   c_rec : option bool;
-  c_exsub : option (list pattern);
+  c_exsub : option (list xentry);
   c_mark : option str
 }.
 Definition empty_cfg : cfg :=
@@ -163,7 +169,7 @@ Definition sub_packages (t : tree) (parent : str) : list str :=
 (* Config.ShouldExcludeSubpkg, (fix c07-exclude-subpkg-per-package) of the recursive
    package's config *)
 Definition exclude (c : cfg) (s : str) : bool :=
-  existsb (fun p => pat_match p s) (match c_exsub c with Some l => l | None => [] end).
+  existsb (fun e => entry_match e s) (match c_exsub c with Some l => l | None => [] end).
 
 Definition with_cfg (p : pcfg) (c : cfg) : pcfg := {| p_cfg := c; p_ifaces := p_ifaces p |}.
 
